@@ -218,8 +218,6 @@ func c17Calibration() []*mc.Scenario {
 	}
 }
 
-var ddClients = map[*ddreg.MetricRegistry]*dogstatsd.Client{}
-
 // gmBackends remembers the go-metrics backend of each registry built for an execution: its timers
 // own meters that the library's global arbiter keeps alive until they are unregistered.
 var gmBackends = map[core.MetricRegistry]gometricslib.Registry{}
@@ -484,23 +482,23 @@ func c17Types() []c17Type {
 	}
 	ts = append(ts, c17Type{name: "gometrics.MetricRegistry", mk: func() any { return newGoMetrics() }, ops: regOps(),
 		done: func(i any) { dropGoMetrics(i.(core.MetricRegistry)) }})
-	ts = append(ts, c17Type{name: "datadog.MetricRegistry", mk: func() any {
-		client, err := dogstatsd.NewWithWriter(&memWriter{}, dogstatsd.WithoutTelemetry(), dogstatsd.WithoutClientSideAggregation())
+	// one statsd client per process (creating and closing one costs milliseconds and goroutines); it
+	// only receives datagrams and keeps no state the scenarios observe
+	mkDD := func() any {
+		if sharedDD == nil {
+			client, err := dogstatsd.NewWithWriter(nullWriter{}, dogstatsd.WithoutTelemetry(), dogstatsd.WithoutClientSideAggregation())
+			if err != nil {
+				panic(err)
+			}
+			sharedDD = client
+		}
+		r, err := ddreg.NewMetricRegistryWithClient(sharedDD, "p", time.Second)
 		if err != nil {
 			panic(err)
 		}
-		r, err := ddreg.NewMetricRegistryWithClient(client, "p", time.Second)
-		if err != nil {
-			panic(err)
-		}
-		ddClients[r] = client
 		return r
-	}, ops: regOps(), done: func(i any) {
-		if c := ddClients[i.(*ddreg.MetricRegistry)]; c != nil {
-			c.Close()
-			delete(ddClients, i.(*ddreg.MetricRegistry))
-		}
-	}})
+	}
+	ts = append(ts, c17Type{name: "datadog.MetricRegistry", mk: mkDD, ops: regOps()})
 	// polling variants: the registry is started and holds a gauge, the clock is eager, so the poller's
 	// tick body runs concurrently with registration, sampling and Stop
 	pollOps := func() []c17Op {
@@ -511,23 +509,6 @@ func c17Types() []c17Type {
 	for _, base := range ts[len(ts)-2:] {
 		base := base
 		mkReg := base.mk
-		if strings.HasPrefix(base.name, "datadog") {
-			// one statsd client per process here: a client costs milliseconds to create and close
-			mkReg = func() any {
-				if sharedDD == nil {
-					client, err := dogstatsd.NewWithWriter(nullWriter{}, dogstatsd.WithoutTelemetry(), dogstatsd.WithoutClientSideAggregation())
-					if err != nil {
-						panic(err)
-					}
-					sharedDD = client
-				}
-				r, err := ddreg.NewMetricRegistryWithClient(sharedDD, "p", time.Second)
-				if err != nil {
-					panic(err)
-				}
-				return r
-			}
-		}
 		ts = append(ts, c17Type{name: base.name + "(polling)", eager: true, pb: 1, ops: pollOps(), mk: func() any {
 			r := mkReg().(core.MetricRegistry)
 			r.RegisterGauge("g0", func() (float64, bool) { return 2, true })
